@@ -83,3 +83,11 @@ VARIANTS += [
     dict(name="seed2-transforms-truthiness-in-filter", kind="break", rule="C10-predicate", edits=[("evaluation/matching/objects_filter.py",
         "    elif dynamic_object.state.position is not None and transforms is not None:", "    elif dynamic_object.state.position is not None and transforms:")]),
 ]
+
+VARIANTS += [
+    dict(name="seed2-eq-with-tolerance", kind="break", rule="C03-identity", edits=[("common/object.py",
+        "            eq = eq and self.state.position == other.state.position  # type: ignore", "            eq = eq and bool(np.allclose(self.state.position, other.state.position))")]),
+    dict(name="eq-as-single-conjunction", kind="benign", edits=[("common/object.py",
+        "            eq: bool = True\n            eq = eq and self.unix_time == other.unix_time\n            eq = eq and self.semantic_label == other.semantic_label  # type: ignore\n            eq = eq and self.state.position == other.state.position  # type: ignore\n            eq = eq and self.state.orientation == other.state.orientation  # type: ignore\n            return eq",
+        "            return (\n                self.unix_time == other.unix_time\n                and self.semantic_label == other.semantic_label\n                and self.state.position == other.state.position\n                and self.state.orientation == other.state.orientation\n            )")]),
+]
